@@ -30,8 +30,37 @@ pub struct Txt {
     pub chunking: Chunking,
 }
 
+/// long lines (a line buffer of 16 … 65 536 bytes in the printer): rendering index 6 + 2i is one line of
+/// LONG[i] chars, index 7 + 2i two such lines ("aaa…\nbbb…")
+pub const LONG: [usize; 27] = [15, 16, 17, 31, 32, 33, 63, 64, 65, 127, 128, 129, 159, 160, 161, 255, 256, 257, 1023, 1024, 1025, 4095, 4096, 4097, 65535, 65536, 65537];
+pub fn raw(r: u8) -> String {
+    let r = r as usize;
+    if r < ALPHABET.len() {
+        return ALPHABET[r].to_string();
+    }
+    let l = LONG[(r - ALPHABET.len()) / 2];
+    if (r - ALPHABET.len()) % 2 == 0 {
+        "a".repeat(l)
+    } else {
+        format!("{}\n{}", "a".repeat(l), "b".repeat(l))
+    }
+}
+/// a short name of a rendering for reports
+pub fn raw_name(r: u8) -> String {
+    let s = raw(r);
+    if s.len() <= 40 {
+        s
+    } else if s.contains('\n') {
+        format!("<two lines of {} chars>", s.len() / 2)
+    } else {
+        format!("<one line of {} chars>", s.len())
+    }
+}
+fn is_heavy(r: u8) -> bool {
+    (r as usize) >= ALPHABET.len() && LONG[(r as usize - ALPHABET.len()) / 2] > 5000
+}
 pub fn rendering(r: u8, mode: usize) -> String {
-    ALPHABET[r as usize].replace('a', &MODE_CHAR[mode].to_string())
+    raw(r).replace('a', &MODE_CHAR[mode].to_string())
 }
 
 impl Txt {
@@ -289,6 +318,8 @@ pub struct PpResult {
     pub digest: u64,
     pub mismatches: Vec<Mismatch>,
     pub samples: Vec<serde_json::Value>,
+    /// (shape, assignment) pairs of the long-line family
+    pub long_line_cases: usize,
 }
 
 /// Deep indentation family: a spine of `depth` nested only-or-first children below the root,
@@ -371,6 +402,30 @@ pub fn run_with(max_n: usize, full_n: usize, k: usize, spine_depth: usize) -> Pp
             work.push((p, a));
         }
     }
+    // long lines: every shape with <= 3 nodes and a five-level spine, one node (each in turn) or every node
+    // carrying a long rendering
+    let mut long_cases = 0usize;
+    {
+        let mut small: Vec<Vec<usize>> = (1..=3.min(max_n)).flat_map(shapes).collect();
+        small.push(spine(5, 0b10101));
+        for p in small {
+            let n = p.len();
+            for r in ALPHABET.len()..ALPHABET.len() + 2 * LONG.len() {
+                let r = r as u8;
+                for who in 0..=n {
+                    if n > 4 && !(who == 0 || who == 5 || who == n - 1) {
+                        continue;
+                    }
+                    let a: Vec<u8> = (0..n).map(|i| if who == n || i == who { r } else { 0 }).collect();
+                    if who == n && (n == 1 || is_heavy(r)) {
+                        continue;
+                    }
+                    long_cases += 1;
+                    work.push((p.clone(), a));
+                }
+            }
+        }
+    }
     let sparse = &sparse;
     let all_shapes_len = all_shapes.len() + spines;
     let results: Vec<(Vec<Mismatch>, HashSet<u64>, u64)> = work
@@ -382,12 +437,13 @@ pub fn run_with(max_n: usize, full_n: usize, k: usize, spine_depth: usize) -> Pp
             for (parent, assign) in chunk {
                 let n = parent.len();
                 let is_sparse = n > 11 && sparse.contains(&(parent.clone(), assign.clone()));
+                let heavy = assign.iter().any(|r| is_heavy(*r));
                 for &chunking in &CHUNKINGS {
-                    if is_sparse && !matches!(chunking, Chunking::Whole | Chunking::Split(1)) {
+                    if (is_sparse || heavy) && !matches!(chunking, Chunking::Whole | Chunking::Split(1)) {
                         continue;
                     }
                     for embedded in [false, true] {
-                        if is_sparse && embedded {
+                        if (is_sparse || heavy) && embedded {
                             continue;
                         }
                         let (arena, ids) = build(parent, assign, chunking, embedded);
@@ -470,5 +526,6 @@ pub fn run_with(max_n: usize, full_n: usize, k: usize, spine_depth: usize) -> Pp
         digest,
         mismatches,
         samples,
+        long_line_cases: long_cases,
     }
 }
